@@ -19,6 +19,51 @@ def corpus_texts():
     return out
 
 
+def _rules_of(case):
+    from datetime import datetime
+    r = qa.CTP.ctparse(case["text"], datetime(*case["ts"]), timeout=0)
+    if r is None or r.resolution is None:
+        return []
+    return sorted({x for x in r.production if not isinstance(x, int)})
+
+
+_COVER = {}
+
+
+def corpus_cover(per_rule=3):
+    """A sample of the bundled corpus in which every rule that occurs in the winning production of ANY corpus text occurs in at
+    least per_rule sampled texts (shortest texts first): the quick tiers take a slice of the corpus plus this cover, so that rare
+    rule compositions (date range + duration, ...) are always among the expressions."""
+    if per_rule in _COVER:
+        return _COVER[per_rule]
+    texts = corpus_texts()
+    res = core.pmap(_rules_of, [{"text": t, "ts": ts} for t, ts in texts])
+    by_rule = {}
+    for case, rules, err in res:
+        for r in rules or []:
+            by_rule.setdefault(r, []).append((case["text"], case["ts"]))
+    picked = []
+    for r in sorted(by_rule, key=lambda x: len(by_rule[x])):
+        have = sum(1 for x in by_rule[r] if x in picked)
+        for x in sorted(set(by_rule[r]), key=lambda x: (len(x[0]), x[0])):
+            if have >= per_rule:
+                break
+            if x not in picked:
+                picked.append(x)
+                have += 1
+    _COVER[per_rule] = picked
+    return picked
+
+
+def corpus_sample(quick, seed, k):
+    """The corpus texts of a tier: all of them (thorough) or every k-th (phase by seed) plus the rule cover."""
+    texts = corpus_texts()
+    if not quick:
+        return texts
+    out = texts[seed % k::k]
+    return out + [x for x in corpus_cover() if x not in out]
+
+
 def obs_text(case):
     o = engine.observe_text(case)
     # duration amounts above 10^6 are outside the model's 32-bit arithmetic (DESIGN.md section 10): not judged by TLC
@@ -69,7 +114,9 @@ def run(ctx):
     texts += [(t, (2018, 3, 7, 12, 43)) for t in extra]
     nkeep = len(extra) + (150 if ctx.quick else 1500)
     if ctx.quick:
-        texts = [x for i, x in enumerate(texts[:-nkeep]) if i % 3 == ctx.seed % 3] + texts[-nkeep:]
+        cov = corpus_cover()
+        head = [x for i, x in enumerate(texts[:-nkeep]) if i % 3 == ctx.seed % 3]
+        texts = head + [x for x in cov if x not in head] + texts[-nkeep:]
     cases = []
     skipped = 0
     for t, ts in texts:
